@@ -37,6 +37,8 @@ ATTR_SETS_ACTIONS = [
     [('a', None), ('class', "'k'")],
     [('class', '"r\tc"')],                  # class tokens separated by a tab / by line breaks only
     [('class', '"\nx\n\ty\n"'), ('d', 'e')],
+    [('class', 'item'), ('id', 'main')],     # unquoted values of more than two characters (a one-letter value hides every off-by-one)
+    [('class', '{a bc}')],                   # an expression value that holds a token list
 ]
 
 BODY = {
